@@ -323,6 +323,19 @@ class Init(_Tree):
         a = V.addr(self.obj)
         self.check_inv(it, "post")
         st.check("P2:a-new-scope-is-neither-finished-nor-completed", z3.And(z3.Not(t["fin"](a)), z3.Not(t["comp"](a))))
+        if it.kind(self.parent) == "ref":
+            pa = V.addr(self.parent)
+            old = self.old["heap"]
+            oF = lambda n: old.get(n, st.heap0.get(n, st.field_array(n)))
+            ocomp = V.ival(z3.Select(oF("$fstate"), V.addr(z3.Select(oF("_completed"), pa)))) != F_PENDING
+            ohi = z3.Select(oF("$hi"), V.addr(z3.Select(oF("_nested"), pa)))
+            st.check("P2:a-new-scope-is-registered-under-the-scope-it-was-created-in-unless-that-scope-already-completed",
+                     z3.Implies(z3.Not(ocomp), z3.And(t["par"](a) == self.parent, t["hi"](pa) == ohi + 1,
+                                                      t["A"](pa, ohi) == self.obj)))
+            st.check("P2:a-scope-created-under-a-completed-scope-is-detached(not-registered)",
+                     z3.Implies(ocomp, z3.And(V.is_none(t["par"](a)), t["hi"](pa) == ohi)))
+        else:
+            st.check("P2:an-outermost-scope-has-no-parent", V.is_none(t["par"](a)))
         cbs = st.ghost.get("$done_callbacks", [])
         mine = [cb for (o, cb) in cbs if o.eq(st.get(self.obj, "_completed"))]
         st.check("P4:the-completion-callback-is-attached-to-the-completion-future-exactly-once-iff-given",
